@@ -256,7 +256,7 @@ end checks
 missing field values"): key comparison is IEEE `==` (a missing key matches nothing, a missing id duplicates
 nothing), a missing decision value is never the best one (pandas sorts missing values LAST whatever the
 direction), and a missing object number neither collides nor carries an offset.  With `miss := fun _ => false`
-these are the clause lists above (`Props/C08.lean`: `stepClausesM_no_missing`), for which the theorems are proved. -/
+these are the clause lists above (`Props/C08.lean`: `dropDupClausesM_no_missing` for the drop-duplicates clauses; the merge variants differ from the proved ones only in `offsetOfM` / `blockOkBM`, which read `miss`), for which the theorems are proved. -/
 section missing
 variable [BEq α] (eqv : α → α → Bool) (miss : α → Bool)
 
